@@ -289,8 +289,10 @@ class Soap11(XmlDocument):
             else:
                 ctx.in_object = self.from_element(ctx, body_class,
                                                                 ctx.in_body_doc)
-                if ctx.in_object is None:
-                    # the request element itself is xsi:nil
+                if ctx.in_object is None and \
+                             ctx.descriptor.body_style is BODY_STYLE_WRAPPED:
+                    # the request element itself is xsi:nil. (the only argument
+                    # of a bare method is simply None)
                     ctx.in_object = [None] * len(body_class._type_info)
 
         self.event_manager.fire_event('after_deserialize', ctx)
